@@ -401,7 +401,9 @@ func (p *Parser) fail(f string, a ...any) {
 	}
 }
 
-func (p *Parser) isPunct(s string) bool { return p.err == nil && p.tok.Kind == TPunct && p.tok.Text == s }
+func (p *Parser) isPunct(s string) bool {
+	return p.err == nil && p.tok.Kind == TPunct && p.tok.Text == s
+}
 
 func (p *Parser) expectPunct(s string) {
 	if !p.isPunct(s) {
